@@ -211,8 +211,14 @@ def _reaching_names(fi, expr_nodes, upto_line):
         if isinstance(st, ast.Assign):
             for t in st.targets:
                 base = t
-                while isinstance(base, (ast.Subscript, ast.Attribute)):
-                    base = base.value
+                while True:
+                    if isinstance(base, (ast.Subscript, ast.Attribute)):
+                        base = base.value
+                    elif isinstance(base, ast.Call) and isinstance(base.func, ast.Attribute) \
+                            and base.func.attr in ('reshape', 'transpose', 'view', 'ravel', 'swapaxes', 'squeeze'):
+                        base = base.func.value      # a store through a view of the array
+                    else:
+                        break
                 if isinstance(base, ast.Name):
                     assigns.append((st.lineno, base.id, st.value))
                 elif isinstance(base, (ast.Tuple, ast.List)):
